@@ -278,7 +278,7 @@ def description(req, uid):
          'ranks'         : 1,
          'cores_per_rank': 1,
          'gpus_per_rank' : 0.0,
-         'sandbox'       : '',
+         'sandbox'       : req.get('sandbox', ''),
          'pre_exec'      : list()}
     if mode == 'func':
         d.update({'function': 'c20_payload',  'args': [copy.deepcopy(spec)],
@@ -343,6 +343,17 @@ def judge_tuple(req, tup, view_expected):
     def say(mech, msg):
         bad.append((mech, '%s %s: %s [%r]' % (mode, req['cls'], msg,
                                                (out, err, ret, val, exc))))
+
+    if req.get('bad_sandbox'):
+        # the request never ran: its sandbox could not be created.  What has
+        # to come back is a failure with the reason, nothing of the payload
+        if ret in (0, None):
+            say('failure-reported-as-success', 'sandbox could not be created '
+                'but exit code is %r' % (ret,))
+        if not exc or not exc[0]:
+            say('exception-not-recorded', 'sandbox could not be created, no '
+                'exception in the result')
+        return bad, None
 
     if mode in SH_MODES:
         code = spec.get('exit') or 0
@@ -1059,6 +1070,10 @@ def gen_worker_case(rng):
             cls = 'sleep'
         if mode in SH_MODES and cls == 'setenv':
             cls = 'child'
+        bad_sbox = False
+        if rng.random() < 0.05:
+            # the request's sandbox cannot be created (its parent is a file)
+            cls, bad_sbox = 'return', True
         if cls == 'linger' and (mode not in PY_MODES or n_tout >= 2
                                 or mode not in ('func', 'meth')):
             cls = 'sleep'
@@ -1085,7 +1100,8 @@ def gen_worker_case(rng):
                 rng.choice([0, 0, min(1, n_gpus)])
         req = {'uid': 'req.%04d' % i, 'mode': mode, 'cls': cls, 'spec': spec,
                'timeout': tout, 'cores': cores, 'gpus': gpus,
-               'environment': dict(), 'poison': False}
+               'environment': dict(), 'poison': False,
+               'bad_sandbox': bad_sbox}
         if rng.random() < 0.3:
             req['environment'][rng.choice(KEYS)] = 'env_of_r%d' % (i + 1)
         if rng.random() < 0.06:
@@ -1114,6 +1130,7 @@ def request_task(req):
 
 def expected_outcome(req):
     if req['poison']                      : return 'dispatch-error'
+    if req.get('bad_sandbox')             : return 'raise'
     if req['cls'] in ('timeout', 'linger'): return 'timeout'
     if req['spec'].get('raise')           : return 'raise'
     if req['spec'].get('exit') is not None:
@@ -1540,7 +1557,12 @@ def run_worker_case(case, res, workdir):
     os.makedirs(wd)
     rig = WorkerRig(wd, case['n_cores'], case['n_gpus'], case['seed'], res)
     trace = os.path.join(wd, 'payload.trace')
+    with open(os.path.join(wd, 'c20_blocker'), 'w') as fout:
+        fout.write('a regular file where a directory is wanted\n')
     for r in case['requests']:
+        if r.get('bad_sandbox'):
+            r['sandbox'] = os.path.join(wd, 'c20_blocker', 'sub', r['uid'])
+            res.count('unusable_sandboxes')
         if isinstance(r.get('spec'), dict):
             r['spec']['trace'] = trace
             r['spec']['tag']   = r['uid']
